@@ -29,6 +29,8 @@ def dtype_str(dt):
 def canon(v):
     if v is None:
         return None
+    if isinstance(v, np.generic) and not isinstance(v, (np.str_, np.bytes_)):
+        return {"n": dtype_str(v.dtype), "x": v.tobytes().hex()}
     if isinstance(v, bool):
         return {"b": v}
     if isinstance(v, int):
@@ -87,7 +89,7 @@ def build(j):
 
 def relayout(a, lay):
     """Same values, different memory layout (must be inert)."""
-    if lay == "F":
+    if lay == "F" and a.ndim >= 2:
         return np.asfortranarray(a)
     if lay == "neg" and a.ndim >= 1:
         return a[::-1].copy()[::-1]
